@@ -112,6 +112,34 @@ def record_table():
     return groups
 
 
+def block_scope_table():
+    """alpha-renaming of a binder that is declared *inside* a nested block (after an expression statement, an assignment,
+    in an if arm, a lambda body, two levels deep; let / tuple let / letrec): named like nothing else (reference), like the
+    outer variable it then shadows, like a compiler-generated name.  The outer variable is read again behind the block."""
+    tmpl = {
+        "stmt_then_let": "let a = x + 1\n  let r = { a * 2\n    let {I} = 30\n    {I} }\n  r * 100 + a",
+        "assign_then_let": "let a = x\n  let r = { (a = a + 1)\n    let {I} = 30\n    {I} }\n  r * 100 + a",
+        "call_then_let": "let a = x\n  let r = { cnt()\n    let {I} = 5\n    {I} }\n  r * 10 + a",
+        "if_arm": "let a = x\n  let r = if (a > 0) { a + 0\n    let {I} = 5\n    {I} } else { 0 }\n  r * 10 + a",
+        "lambda_body": "let a = x\n  let g = |y| { y + 0\n    let {I} = 7\n    {I} + y }\n  g(1) * 10 + a",
+        "letrec": "let a = x\n  let r = { a + 0\n    letrec {I} = |n| if (n > 0) n + {I}(n - 1) else 0\n    {I}(3) }\n  r * 10 + a",
+        "tuple_let": "let a = x\n  let r = { a + 0\n    let ({I}, b) = (8, 9)\n    {I} + b }\n  r * 10 + a",
+        "two_levels": "let a = x\n  let r = { a + 0\n    { a + 1\n      let {I} = 5\n      {I} } + a }\n  r * 10 + a",
+        "let_first": "let a = x\n  let r = { let {I} = 5\n    {I} * 2 }\n  r * 10 + a",
+        "operand": "let a = x\n  ({ a + 0\n    let {I} = 5\n    {I} } * 10) + a",
+    }
+    groups = {}
+    for tname, body in tmpl.items():
+        vs = []
+        for iname in ("inner1", "a", "lambda_0", "x"):
+            if iname == "x" and tname in ("letrec",):
+                continue
+            src = ("fn cnt(){ self + 1 }\n" if "cnt()" in body else "") + f"fn f(x){{\n  {body.replace('{I}', iname)}\n}}\nfn dsp(){{ f(1) + f(now) * 100 }}\n"
+            vs.append((iname, src))
+        groups[f"blockscope_{tname}"] = vs
+    return groups
+
+
 def annotation_table():
     """function definitions of several kinds (plain, with a default argument, recursive, recursive with a default,
     stateful with a default, higher order, tuple in / out) x where agreeing annotations are written (nowhere, on the
@@ -218,6 +246,7 @@ def run(tier):
     # computes the same numbers
     groups = record_table()
     groups.update(annotation_table())
+    groups.update(block_scope_table())
     rreqs = []
     for gname, variants_ in groups.items():
         for vname, src in variants_:
